@@ -148,7 +148,8 @@ def _float_to_cst(value: float) -> cst.BaseExpression:
     """Render a float value as a CST expression node.
 
     Uses ``repr()`` on the absolute value to guarantee a valid float literal
-    string, then wraps in ``UnaryOperation(Minus, …)`` for negative values.
+    string, then wraps in ``UnaryOperation(Minus, …)`` for values whose sign bit
+    is set (negative numbers, ``-0.0`` and ``-inf``).
 
     Args:
         value: The float to render.
@@ -168,7 +169,8 @@ def _float_to_cst(value: float) -> cst.BaseExpression:
         if "." not in float_str and "e" not in float_str:
             float_str += ".0"
         inner = cst.Float(float_str)
-    if value < 0:
+    if math.copysign(1.0, value) < 0:
+        # The sign bit, not ``value < 0``: ``-0.0 < 0`` is false but the sign must be kept.
         return cst.UnaryOperation(
             operator=cst.Minus(),
             expression=inner,
@@ -275,10 +277,11 @@ def _parse_int(expr: cst.BaseExpression) -> int | None:
     return None
 
 
-def _parse_float(expr: cst.BaseExpression) -> float | None:
-    """Extract a float value from a CST expression.
+def _parse_unsigned_float(expr: cst.BaseExpression) -> float | None:
+    """Extract a float value from an unsigned float expression.
 
-    Handles plain ``cst.Float`` and ``cst.UnaryOperation(Minus, Float)``.
+    Handles plain ``cst.Float`` and the ``float('inf')`` / ``float('nan')`` call
+    forms that :func:`_float_to_cst` renders for non-finite values.
 
     Args:
         expr: The CST expression to inspect.
@@ -289,12 +292,34 @@ def _parse_float(expr: cst.BaseExpression) -> float | None:
     if isinstance(expr, cst.Float):
         return float(expr.value)
     if (
-        isinstance(expr, cst.UnaryOperation)
-        and isinstance(expr.operator, cst.Minus)
-        and isinstance(expr.expression, cst.Float)
+        isinstance(expr, cst.Call)
+        and isinstance(expr.func, cst.Name)
+        and expr.func.value == "float"
+        and len(expr.args) == 1
+        and isinstance(expr.args[0].value, cst.SimpleString)
     ):
-        return -float(expr.expression.value)
+        text = expr.args[0].value.evaluated_value
+        if text in {"inf", "nan"}:
+            return float(text)
     return None
+
+
+def _parse_float(expr: cst.BaseExpression) -> float | None:
+    """Extract a float value from a CST expression.
+
+    Handles plain ``cst.Float``, the ``float('inf')`` / ``float('nan')`` call
+    forms, and ``cst.UnaryOperation(Minus, …)`` around either of them.
+
+    Args:
+        expr: The CST expression to inspect.
+
+    Returns:
+        The float value, or ``None`` if the expression is not parseable.
+    """
+    if isinstance(expr, cst.UnaryOperation) and isinstance(expr.operator, cst.Minus):
+        inner = _parse_unsigned_float(expr.expression)
+        return None if inner is None else -inner
+    return _parse_unsigned_float(expr)
 
 
 def _parse_component(expr: cst.BaseExpression) -> float | None:
@@ -650,7 +675,8 @@ def _mutate_float(
         A new CST expression for the mutated float.
     """
     current = _parse_float(expr)
-    if current is None:
+    if current is None or not math.isfinite(current):
+        # A delta cannot move inf/nan; draw a fresh value instead.
         return _gen_float(constant_provider)
     delta = randomness.next_gaussian() * config.configuration.test_creation.max_delta
     return _float_to_cst(current + delta)
@@ -675,7 +701,8 @@ def _mutate_complex(
         A new CST expression for the mutated complex.
     """
     current = _parse_complex(expr)
-    if current is None:
+    if current is None or not (math.isfinite(current.real) and math.isfinite(current.imag)):
+        # A delta cannot move inf/nan components; draw a fresh value instead.
         return _gen_complex(constant_provider)
     real, imag = current.real, current.imag
     max_delta = config.configuration.test_creation.max_delta
